@@ -262,6 +262,17 @@ theorem foldl_opt_HJ {α : Type} (g : HSt → α → Option HSt) : ∀ (l : List
       have s2 := foldl_opt_HJ g xs h1 h' (fun h y h' hy => hg h y h' (List.mem_cons_of_mem _ hy)) he s1.1
       exact ⟨s2.1, s1.2.trans s2.2⟩
 
+theorem foldl_opt_HJ' {α : Type} (g : HSt → α → Option HSt) (l : List α) (o : Option HSt) (h0 h' : HSt)
+    (ho : ∀ h2, o = some h2 → HJ A a b h2 ∧ Keeps h0 h2)
+    (hg : ∀ h x h', x ∈ l → HJ A a b h → g h x = some h' → HJ A a b h' ∧ Keeps h h')
+    (he : l.foldl (fun (acc : Option HSt) x => acc.bind fun h => g h x) o = some h') : HJ A a b h' ∧ Keeps h0 h' := by
+  cases o with
+  | none => rw [foldl_optH_none] at he; cases he
+  | some h2 =>
+    have s1 := ho h2 rfl
+    have s2 := foldl_opt_HJ g l h2 h' hg he s1.1
+    exact ⟨s2.1, s1.2.trans s2.2⟩
+
 theorem markDel_HJ {h : HSt} (hj : HJ A a b h) (x : Ref) :
     HJ A a b (h.lift fun st => markDel fuel st x) ∧ Keeps h (h.lift fun st => markDel fuel st x) := by
   have hm := markDel_J (A := definedAfterH A h.all) (a := a) (b := b) fuel fuel [] h.toSt x hj.j
@@ -334,5 +345,241 @@ theorem addRules_HJ (hw : WF A a b)
     · have s2 : HJ A a b ({ h1 with mode := none } : HSt) := s1.1.setMode none
       refine ⟨s2.emitH _ ?_, fun y hy => s1.2.2 y hy⟩
       exact printRule_ok s2 r r.seq (fun x hx => s1.2.1 x hx)
+
+theorem zipDiff_HJ (hw : WF A a b)
+    (hkk : ∀ x ∈ a, ∀ y ∈ b, ∀ sx ∈ x.secs, ∀ sy ∈ y.secs, KindByKey sx.subs sy.subs) :
+    ∀ (l : List (Ref × Ref)) (h : HSt) (c : Bool) (q : HSt × Bool),
+    (∀ p ∈ l, (a.find? fun y => y.id == p.1).isSome = true ∧ (b.find? fun y => y.id == p.2).isSome = true ∧ p.1.1 = p.2.1) →
+    HJ A a b h →
+    l.foldl (fun (acc : Option (HSt × Bool)) p =>
+      acc.bind fun q => (diffAny fuel q.1.toSt p.1 p.2).map fun d => (q.1.withSt d.1, q.2 || d.2 != p.1.2)) (some (h, c)) = some q →
+    HJ A a b q.1 ∧ (∀ p ∈ l, q.1.isReady p.2 = true) ∧ Keeps h q.1
+  | [], h, c, q, _, hj, he => by cases he; exact ⟨hj, fun _ hp => (nomatch hp), Keeps.refl _⟩
+  | p :: ps, h, c, q, hl, hj, he => by
+    rw [List.foldl_cons] at he
+    simp only [Option.bind_some] at he
+    cases hd : diffAny fuel h.toSt p.1 p.2 with
+    | none =>
+      rw [hd] at he
+      simp only [Option.map_none] at he
+      have : ∀ (l : List (Ref × Ref)), l.foldl (fun (acc : Option (HSt × Bool)) p =>
+          acc.bind fun q => (diffAny fuel q.1.toSt p.1 p.2).map fun d => (q.1.withSt d.1, q.2 || d.2 != p.1.2)) none = none := by
+        intro l; induction l with
+        | nil => rfl
+        | cons _ _ ih => rw [List.foldl_cons]; exact ih
+      rw [this] at he; cases he
+    | some d =>
+      rw [hd] at he
+      simp only [Option.map_some] at he
+      have hp := hl p List.mem_cons_self
+      have hwD := hj.wf hw
+      have s1 := diffAny_J hwD hkk fuel [] h.toSt p.1 p.2 d.1 d.2 hj.j hp.1 hp.2.1 hp.2.2 (rk_lt_fuel p.2.1)
+        (fun _ hq => (nomatch hq)) hd
+      have hj1 := hj.withSt d.1 s1.1
+      have s2 := zipDiff_HJ hw hkk ps (h.withSt d.1) _ q (fun x hx => hl x (List.mem_cons_of_mem _ hx)) hj1 he
+      have k1 : Keeps h (h.withSt d.1) := fun y hy => s1.2.2.1 y hy
+      refine ⟨s2.1, ?_, k1.trans s2.2.2⟩
+      intro x hx
+      cases hx with
+      | head => exact s2.2.2 _ s1.2.1
+      | tail _ hx => exact s2.2.1 x hx
+
+theorem zip_refs_ok {ra rb : Rule} (hs : ra.cm.isSome = rb.cm.isSome) (hra : RuleOK a ra) (hrb : RuleOK b rb) :
+    (∀ p ∈ ra.refs.zip rb.refs, (a.find? fun y => y.id == p.1).isSome = true ∧ (b.find? fun y => y.id == p.2).isSome = true ∧
+      p.1.1 = p.2.1) ∧ ∀ x ∈ rb.refs, ∃ p ∈ ra.refs.zip rb.refs, p.2 = x := by
+  unfold RuleOK Rule.refs at *
+  cases hca : ra.cm with
+  | none =>
+    cases hcb : rb.cm with
+    | some _ => rw [hca, hcb] at hs; cases hs
+    | none =>
+      rw [hca] at hra; rw [hcb] at hrb
+      simp only [List.nil_append, List.zip_cons_cons, List.zip_nil_right, List.mem_singleton] at *
+      exact ⟨fun p hp => by rw [hp]; exact ⟨hra _ rfl, hrb _ rfl, rfl⟩, fun x hx => ⟨_, rfl, hx.symm⟩⟩
+  | some na =>
+    cases hcb : rb.cm with
+    | none => rw [hca, hcb] at hs; cases hs
+    | some nb =>
+      rw [hca] at hra; rw [hcb] at hrb
+      simp only [List.cons_append, List.nil_append, List.zip_cons_cons, List.zip_nil_right, List.mem_cons, List.not_mem_nil, or_false] at *
+      refine ⟨?_, ?_⟩
+      · intro p hp
+        rcases hp with hp | hp
+        · rw [hp]; exact ⟨hra _ (Or.inl rfl), hrb _ (Or.inl rfl), rfl⟩
+        · rw [hp]; exact ⟨hra _ (Or.inr rfl), hrb _ (Or.inr rfl), rfl⟩
+      · intro x hx
+        rcases hx with hx | hx
+        · exact ⟨_, Or.inl rfl, hx.symm⟩
+        · exact ⟨_, Or.inr rfl, hx.symm⟩
+
+theorem equalRule_HJ (hw : WF A a b)
+    (hkk : ∀ x ∈ a, ∀ y ∈ b, ∀ sx ∈ x.secs, ∀ sy ∈ y.secs, KindByKey sx.subs sy.subs)
+    (web : Bool) (ia : Nat) (ra rb : Rule) (hs : ra.cm.isSome = rb.cm.isSome) (hra : RuleOK a ra) (hrb : RuleOK b rb)
+    (h h' : HSt) (hj : HJ A a b h) (he : equalRule h web ia ra rb = some h') : HJ A a b h' ∧ Keeps h h' := by
+  unfold equalRule at he
+  dsimp only at he
+  have h0 : HJ A a b (if web = true then h else { h with tNeeded := ia :: h.tNeeded }) ∧
+      Keeps h (if web = true then h else { h with tNeeded := ia :: h.tNeeded }) := by
+    split
+    · exact ⟨hj, Keeps.refl _⟩
+    · exact ⟨hj.same rfl rfl, fun _ hy => hy⟩
+  have hz := zip_refs_ok hs hra hrb
+  cases hf : (ra.refs.zip rb.refs).foldl (fun (acc : Option (HSt × Bool)) p =>
+      acc.bind fun q => (diffAny fuel q.1.toSt p.1 p.2).map fun d => (q.1.withSt d.1, q.2 || d.2 != p.1.2))
+      (some (if web = true then h else { h with tNeeded := ia :: h.tNeeded }, false)) with
+  | none => rw [hf] at he; cases he
+  | some q =>
+    rw [hf] at he
+    simp only [Option.map_some, Option.some.injEq] at he
+    have s1 := zipDiff_HJ hw hkk _ _ false q hz.1 h0.1 hf
+    have hrdy : ∀ x ∈ rb.refs, q.1.isReady x = true := by
+      intro x hx
+      obtain ⟨p, hp, e⟩ := hz.2 x hx
+      rw [← e]; exact s1.2.1 p hp
+    have k1 : Keeps h q.1 := h0.2.trans s1.2.2
+    rw [← he]
+    split
+    · split
+      · have s2 := setWeb_HJ s1.1
+        refine ⟨s2.1.emitH _ ?_, fun y hy => s2.2 y (k1 y hy)⟩
+        exact printRule_ok s2.1 rb ra.seq (fun x hx => s2.2 x (hrdy x hx))
+      · have s2 : HJ A a b ({ q.1 with mode := none } : HSt) := s1.1.setMode none
+        refine ⟨s2.emitH _ ?_, fun y hy => k1 y hy⟩
+        exact printRule_ok s2 rb ra.seq hrdy
+    · exact ⟨s1.1, k1⟩
+
+theorem mem_withIdx {α : Type} (l : List α) (p : Nat × α) (h : p ∈ withIdx l) : p.2 ∈ l := by
+  unfold withIdx at h
+  exact (List.of_mem_zip h).2
+
+theorem diffRules_HJ (hw : WF A a b)
+    (hkk : ∀ x ∈ a, ∀ y ∈ b, ∀ sx ∈ x.secs, ∀ sy ∈ y.secs, KindByKey sx.subs sy.subs)
+    (web : Bool) (al bl : List Rule) (hal : ∀ r ∈ al, RuleOK a r) (hbl : ∀ r ∈ bl, RuleOK b r)
+    (hshape : ∀ ra ∈ al, ∀ rb ∈ bl, ruleKey a ra = ruleKey b rb → ra.cm.isSome = rb.cm.isSome)
+    (h h' : HSt) (hj : HJ A a b h) (he : diffRules h web al bl = some h') : HJ A a b h' ∧ Keeps h h' := by
+  unfold diffRules at he
+  split at he
+  · cases he; exact ⟨hj, Keeps.refl _⟩
+  · dsimp only at he
+    rw [hj.j.sa, hj.j.sb] at he
+    split at he
+    · -- no rule in common
+      have h0 : HJ A a b (if al.isEmpty = true then h else if web = true then delRules h true (withIdx al) else markRules h false (withIdx al)) ∧
+          Keeps h (if al.isEmpty = true then h else if web = true then delRules h true (withIdx al) else markRules h false (withIdx al)) := by
+        split
+        · exact ⟨hj, Keeps.refl _⟩
+        · split
+          · exact delRules_HJ true _ h hj
+          · exact markRules_HJ false _ h hj
+      split at he
+      · cases he; exact h0
+      · have := addRules_HJ hw hkk web bl hbl _ h' h0.1 he
+        exact ⟨this.1, h0.2.trans this.2⟩
+    · have h1 := delRules_HJ (A := A) (a := a) (b := b) web
+        ((NA.Vpn.unorderedA (bl.map (ruleKey b)) (al.map (ruleKey a)) 0 []).2.1.filterMap fun i => al[i]?.map fun r => (i, r)) h hj
+      generalize delRules h web ((NA.Vpn.unorderedA (bl.map (ruleKey b)) (al.map (ruleKey a)) 0 []).2.1.filterMap
+        fun i => al[i]?.map fun r => (i, r)) = hd at he h1
+      refine foldl_opt_HJ' (fun h (run : List Nat) => addRules h web (run.filterMap fun j => bl[j]?)) _ _ h h' ?_ ?_ he
+      · intro h2 ho
+        have s2 := foldl_opt_HJ (A := A) (a := a) (b := b) (fun h (p : Nat × Nat) => match al[p.1]?, bl[p.2]? with
+            | some ra, some rb => equalRule h web p.1 ra rb
+            | _, _ => some h) _ hd h2 (by
+          intro h p h' hp hj hs
+          cases h1' : al[p.1]? with
+          | none => simp only [h1'] at hs; cases hs; exact ⟨hj, Keeps.refl _⟩
+          | some ra =>
+            cases h2' : bl[p.2]? with
+            | none => simp only [h1', h2'] at hs; cases hs; exact ⟨hj, Keeps.refl _⟩
+            | some rb =>
+              simp only [h1', h2'] at hs
+              obtain ⟨_, k, hk1, hk2⟩ := unorderedA_pairs (bl.map (ruleKey b)) (al.map (ruleKey a)) 0 [] p.1 p.2 hp
+              rw [Nat.sub_zero, List.getElem?_map, h1'] at hk1
+              rw [List.getElem?_map, h2'] at hk2
+              simp only [Option.map_some, Option.some.injEq] at hk1 hk2
+              have hra := List.mem_of_getElem? h1'
+              have hrb := List.mem_of_getElem? h2'
+              exact equalRule_HJ hw hkk web p.1 ra rb (hshape ra hra rb hrb (by rw [hk1, hk2])) (hal ra hra) (hbl rb hrb) h h' hj hs) ho h1.1
+        exact ⟨s2.1, h1.2.trans s2.2⟩
+      · intro h run h' _ hj hs
+        exact addRules_HJ hw hkk web _ (fun r hr => by
+          obtain ⟨j, _, hj'⟩ := List.mem_filterMap.1 hr
+          exact hbl r (List.mem_of_getElem? hj')) h h' hj hs
+
+theorem diffWeb_HJ (hw : WF A a b)
+    (hkk : ∀ x ∈ a, ∀ y ∈ b, ∀ sx ∈ x.secs, ∀ sy ∈ y.secs, KindByKey sx.subs sy.subs)
+    (h h' : HSt) (hj : HJ A a b h)
+    (hal : ∀ al, h.wa = some al → ∀ r ∈ al, RuleOK a r) (hbl : ∀ bl, h.wb = some bl → ∀ r ∈ bl, RuleOK b r)
+    (hshape : ∀ al bl, h.wa = some al → h.wb = some bl → ∀ ra ∈ al, ∀ rb ∈ bl, ruleKey a ra = ruleKey b rb → ra.cm.isSome = rb.cm.isSome)
+    (he : diffWeb h = some h') : HJ A a b h' := by
+  unfold diffWeb at he
+  cases hwa : h.wa with
+  | none =>
+    cases hwb : h.wb with
+    | none => rw [hwa, hwb] at he; cases he; exact hj
+    | some bl =>
+      rw [hwa, hwb] at he
+      dsimp only at he
+      cases hf : bl.foldl (fun (acc : Option HSt) r => acc.bind fun h => followRule h r) (some h) with
+      | none => rw [hf] at he; cases he
+      | some h1 =>
+        rw [hf] at he
+        simp only [Option.map_some, Option.some.injEq] at he
+        -- every reference of every rule is ready afterwards
+        have key : ∀ (l : List Rule) (h h1 : HSt), (∀ r ∈ l, RuleOK b r) → HJ A a b h →
+            l.foldl (fun (acc : Option HSt) r => acc.bind fun h => followRule h r) (some h) = some h1 →
+            HJ A a b h1 ∧ (∀ r ∈ l, ∀ x ∈ r.refs, h1.isReady x = true) ∧ Keeps h h1 := by
+          intro l
+          induction l with
+          | nil => intro h h1 _ hj he; cases he; exact ⟨hj, fun _ hr => (nomatch hr), Keeps.refl _⟩
+          | cons r rs ih =>
+            intro h h1 hl hj he
+            rw [List.foldl_cons] at he
+            simp only [Option.bind_some] at he
+            cases hx : followRule h r with
+            | none => rw [hx, foldl_optH_none] at he; cases he
+            | some h2 =>
+              rw [hx] at he
+              have s1 := followRule_HJ hw hkk r (hl r List.mem_cons_self) h2 hj hx
+              have s2 := ih h2 h1 (fun y hy => hl y (List.mem_cons_of_mem _ hy)) s1.1 he
+              refine ⟨s2.1, ?_, s1.2.2.trans s2.2.2⟩
+              intro y hy x hx'
+              cases hy with
+              | head => exact s2.2.2 x (s1.2.1 x hx')
+              | tail _ hy => exact s2.2.1 y hy x hx'
+        have s1 := key bl h h1 (hbl bl hwb) hj hf
+        have s2 : HJ A a b (if inGpUser h1.mode = true then h1.lift (·.emit .exit) else h1) ∧
+            Keeps h1 (if inGpUser h1.mode = true then h1.lift (·.emit .exit) else h1) := by
+          split
+          · exact s1.1.emitG .exit rfl rfl
+          · exact ⟨s1.1, Keeps.refl _⟩
+        generalize (if inGpUser h1.mode = true then h1.lift (·.emit .exit) else h1) = h2 at he s2
+        have s3 : HJ A a b ({ (h2.emitH .webvpn) with mode := some webMode } : HSt) := (s2.1.emitH .webvpn rfl).setMode _
+        have k3 : Keeps h1 ({ (h2.emitH .webvpn) with mode := some webMode } : HSt) := fun y hy => s2.2 y hy
+        generalize ({ (h2.emitH .webvpn) with mode := some webMode } : HSt) = h3 at he s3 k3
+        rw [← he]
+        have fin : ∀ (l : List Rule) (h : HSt), HJ A a b h → (∀ r ∈ l, ∀ x ∈ r.refs, h.isReady x = true) →
+            HJ A a b (l.foldl (fun h r => h.emitH (.cgm false (h.printRule r r.seq))) h) := by
+          intro l
+          induction l with
+          | nil => intro h hj _; exact hj
+          | cons r rs ih =>
+            intro h hj hr
+            rw [List.foldl_cons]
+            refine ih _ (hj.emitH _ (printRule_ok hj r r.seq (hr r List.mem_cons_self))) ?_
+            intro r' hr' x hx
+            exact hr r' (List.mem_cons_of_mem _ hr') x hx
+        exact fin bl h3 s3 (fun r hr x hx => k3 x (s1.2.1 r hr x hx))
+  | some al =>
+    cases hwb : h.wb with
+    | none =>
+      rw [hwa, hwb] at he
+      simp only [Option.some.injEq] at he
+      rw [← he]
+      split
+      · exact hj
+      · exact (delRules_HJ true _ h hj).1
+    | some bl =>
+      rw [hwa, hwb] at he
+      exact (diffRules_HJ hw hkk true al bl (hal al hwa) (hbl bl hwb) (hshape al bl hwa hwb) h h' hj he).1
 
 end NA.Vpn.G
